@@ -76,7 +76,17 @@ unsigned long g_eval_str[G_MAXEVAL][4];
 #else
 #define ENS_PAYLOAD_COLLECTION
 #endif
-#define ENS_PAYLOADS ENS_PAYLOAD_IMAGINARY ENS_PAYLOAD_LITERAL ENS_PAYLOAD_TABCHAR ENS_PAYLOAD_COMPLEX ENS_PAYLOAD_COLLECTION
+#ifdef PAYLOAD_TUPLE
+/* a non-null tuple value owns a Tuple whose tuple type is the value's type */
+#define ENS_PAYLOAD_TUPLE __CPROVER_ensures((__exc == 0 && V_IS(__CPROVER_return_value, ROWTYPE) && !V_ISNULL(__CPROVER_return_value)) ==> \
+   (IS_FRESH(__CPROVER_return_value->_value.p, sizeof(struct Tuple)) && \
+    SET_EQ(((struct Tuple *)__CPROVER_return_value->_value.p)->_type._major, V_MAJOR(__CPROVER_return_value)) && \
+    SET_EQ(((struct Tuple *)__CPROVER_return_value->_value.p)->_type._minor, V_MINOR(__CPROVER_return_value)) && \
+    SET_EQ(((struct Tuple *)__CPROVER_return_value->_value.p)->_type._level, V_LEVEL(__CPROVER_return_value))))
+#else
+#define ENS_PAYLOAD_TUPLE
+#endif
+#define ENS_PAYLOADS ENS_PAYLOAD_IMAGINARY ENS_PAYLOAD_LITERAL ENS_PAYLOAD_TABCHAR ENS_PAYLOAD_COMPLEX ENS_PAYLOAD_COLLECTION ENS_PAYLOAD_TUPLE
 
 /* Value& Expression::value(Context&) -- any node, as seen by its parent.
  * Normal return: a valid value of ANY tag, null or not, temporary or variable-owned.
